@@ -231,7 +231,7 @@ Definition icase (issue : string) (c : clabel) (rxn : string) (m : outcome2 (str
 
 def h2_check(ctx, batches, name):
     """oracle fact H2 (inserted water alone never balances a reaction): the model's water step, with the recorded composition
-    tables, on every admitted reaction of every batch -- evaluated inside Coq"""
+    tables, on every parsable reaction of every batch -- evaluated inside Coq"""
     H2_HDR = pipe.PIPE_HDR.replace("Model.Pipeline ", "Model.Pipeline Proofs.Balanced ")
     H2_DEFS = pipe.PIPE_DEFS + """
 Definition h2case (o : oracles) (s : string) : bool :=
